@@ -13,4 +13,3 @@ func (r *Run) installPlanMonitors(o *mergeplan.Options) {
 		return mergeplan.CalcBudget(totalSize, firstTierSize, oo)
 	}
 }
-func (r *Run) dirInvariants(evs []*Event)              {}
